@@ -11,6 +11,7 @@
         optional in req: "value_form"/"ioclass_form"/"res_form": "int"|"enum"|"bool"; "cpus_form": "list"|"tuple"|"set"|
         "range"|"iterator"; "limits_form": "tuple"|"list"|"iterator"   (the arguments as Python objects: Model §6)
         {"op":"pack","cls":n,"data":n} / {"op":"unpack","v":n}       (native-layer packing only)
+        {"op":"eligible","pid":n,["status_mask":[n]|null]}           (the helper `_get_eligible_cpus()` only)
    out: {"model":{"out":…,"procs":[…],"log":[…]}, "spec": null | {"out":…,"procs":[…],"log":[…]}}
 -/
 import PsutilModel.Base.Proto
@@ -138,6 +139,11 @@ def handle (d : DSt) (j : Json) : R (DSt × Json) := do
   if op == "unpack" then
     let (c, x) := ioprioUnpack cfg.shift (← natF j "v")
     return (d, ok (Json.arr #[jNat c, jNat x]))
+  if op == "eligible" then
+    -- `_get_eligible_cpus()` of the model alone (status file read now, or the cached one showing `status_mask`)
+    let pid ← natF j "pid"
+    let r := getEligibleCpusX d.k pid (← optF (asList asNat) j "status_mask")
+    return (d, ok (match r with | none => Json.null | some l => jList jNat l))
   if op == "call" then
     let pid ← natF j "pid"
     let req ← field j "req" >>= parseReq
